@@ -48,6 +48,10 @@ def run(ctx):
                 s = "".join("." if i in pos else REST[(7 * i + total) % 26] for i in range(total))
                 for root in ("", "\\"):
                     (strs if amlwf(root + s) else bad).append(root + s)
+    # a treacherous character (case-mapping, non-ASCII digit/letter, white space, sign, ...) at every position
+    for b in ("ABCD", "\\_SB_.PCI0", "AB_D.E123.F4__"):
+        for v in amlgen.hostile_variants(b):
+            (strs if amlwf(v) and all(c in REST + ".\\" for c in v) else bad).append(v)
     allstrs = strs + bad
     progs = []
     for what in ("path", "path_from"):
